@@ -13,11 +13,11 @@ CHECKS = {
 CHECKS["C01"] = {
     "text": "Proof of the mechanism (Verus, real code extracted each run): GroupingContainer::{insert,get,begin_group,end_group} equal a stack-of-snapshots model for every history and depth (representation invariant proved preserved); update_save_stack: Local keeps the first overwritten value of the innermost level, Global purges the variable from EVERY level, other types' slots framed; command::Map opens/closes a group in BOTH its containers (control sequences and active characters) and routes inserts; VM::begin_group / VM::end_group keep the command map, the variable save stack and the font save stack in lockstep for every history (so the two unwrap()s on the popped stacks cannot fail); prefix::Component::read_and_reset_global consumes the \\global flag exactly once and honours \\globaldefs.",
     "design_ref": "DESIGN.md §5 C01",
-    "note": "Not verified: VM::run_impl dispatch, TypedVariable::set and SaveStackMap::restore (they call setters through function-pointer fields, which Verus rejects), Vec backing container insert/get_mut (get/remove are proved), the macro-generated map_getter closures (assumed to be field lenses). Trusted: vstd HashMap model, HashMap::get_mut delegation, consuming HashMap iteration modelled as take-any-until-empty. A bounded driver (real VM + stdlib vs a snapshot model over group histories) stands in for the unverified glue and is labelled bounded.",
+    "note": "Not verified: VM::run_impl dispatch, TypedVariable::set and SaveStackMap::restore (they call setters through function-pointer fields, which Verus rejects), Vec backing container get_mut (get/remove/insert are proved), the macro-generated map_getter closures (assumed to be field lenses). Trusted: vstd HashMap model, HashMap::get_mut delegation, consuming HashMap iteration modelled as take-any-until-empty. A bounded driver (real VM + stdlib vs a snapshot model over group histories) stands in for the unverified glue and is labelled bounded.",
     "technique": "contract-based deductive verification (Verus: data-structure invariant + abstract model view, loop invariants, closure lens contract)",
 }
 CHECKS["C20"] = {
-    "text": "Proof (Verus): after every local insert, global insert, begin-group and end-group the real GroupingContainer equals the stack-of-snapshots model (visible map + one snapshot per open group), with its representation invariant preserved, for all keys, values, histories and depths, over the BackingContainer trait contract; the HashMap and Vec<Option<V>> implementations of get/remove are proved against it. KMP: Matcher::new builds exactly the prefix function of the pattern and Search::next reports a match iff the pattern ends at the current position, for every pattern and every text.",
+    "text": "Proof (Verus): after every local insert, global insert, begin-group and end-group the real GroupingContainer equals the stack-of-snapshots model (visible map + one snapshot per open group), with its representation invariant preserved, for all keys, values, histories and depths, over the BackingContainer trait contract; the HashMap implementation and the Vec<Option<V>> implementation (get, remove, insert) are proved against it. KMP: Matcher::new builds exactly the prefix function of the pattern and Search::next reports a match iff the pattern ends at the current position, for every pattern and every text.",
     "design_ref": "DESIGN.md §5 C20",
     "note": "NOT proved: iter_all/FromIterator replay and the string interner (bounded driver only: replay over every history <= 4 x continuation <= 2; interner under a constant hasher); tag uniqueness across threads is not decided at all (concurrency is outside both verifiers). Trusted: vstd HashMap model; HashMap::get_mut; consuming iteration modelled as take-any-until-empty; Clone identity on keys.",
     "technique": "contract-based deductive verification (Verus, ghost view + representation invariant)",
